@@ -386,8 +386,8 @@ namespace adm {
     }
 
     void DocumentParser::resolveTrackUidReferences(
-        const std::map<std::shared_ptr<AudioObject>,
-                       std::vector<AudioTrackUidId>>& map) {
+        const detail::PendingReferences<std::shared_ptr<AudioObject>,
+                                        std::vector<AudioTrackUidId>>& map) {
       for (const auto& entry : map) {
         for (const auto& id : entry.second) {
           if (*id.get<AudioTrackUidIdValue>() == 0)
